@@ -92,16 +92,51 @@ def compare(p, e, o) -> Optional[Dict[str, Any]]:
         return {"what": "render-ids-not-distinct", "ids": reals}
     if [x[0] for x in e["elems"]] != [x[0] for x in o["elems"]]:
         return {"what": "element-sequence", "expected": [x[0] for x in e["elems"]], "observed": [x[0] for x in o["elems"]]}
+    # Instances whose template echoes no Component.id (silent wrappers: output = nested components only) are
+    # matched to the remaining, un-echoed ids by unification: one consistent, injective assignment must exist.
     want: Dict[str, set] = {}
+    silent: Dict[str, set] = {}
     for occ, inst in e["marks"]:
-        if inst not in inst2real:
-            return {"what": "instance-without-id-echo", "instance": inst}
-        want.setdefault(occ, set()).add(inst2real[inst].lower())   # html.parser lower-cases attribute names
+        if inst in inst2real:
+            want.setdefault(occ, set()).add(inst2real[inst].lower())   # html.parser lower-cases attribute names
+        else:
+            silent.setdefault(occ, set()).add(inst)
+    known = {r.lower() for r in inst2real.values()}
+    pending = []
     for (eid, occ), (_, ids) in zip(e["elems"], o["elems"]):
-        if set(ids) != want.get(occ, set()):
+        got_known = set(ids) & known
+        unknown = set(ids) - known
+        if got_known != want.get(occ, set()) or len(unknown) != len(silent.get(occ, set())):
             return {"what": "ids-on-element", "element": eid, "occurrence": occ,
-                    "expected": sorted(want.get(occ, set())), "observed": ids,
-                    "id_of_instance": inst2real}
+                    "expected": sorted(want.get(occ, set())), "expected_silent_instances": sorted(silent.get(occ, set())),
+                    "observed": ids, "id_of_instance": inst2real}
+        if unknown:
+            pending.append((eid, occ, set(silent[occ]), unknown))
+    s2u: Dict[str, str] = {}
+    u2s: Dict[str, str] = {}
+    progress = True
+    while progress and pending:
+        progress = False
+        rest = []
+        for eid, occ, S, U in pending:
+            for s in list(S):
+                if s in s2u:
+                    if s2u[s] not in U:
+                        return {"what": "ids-on-element", "element": eid, "occurrence": occ,
+                                "detail": f"silent instance {s} carries id {s2u[s]} elsewhere but not here", "observed": sorted(U)}
+                    S.discard(s)
+                    U.discard(s2u[s])
+            for u in list(U):
+                if u in u2s:     # an id already assigned to another instance shows up where that instance has no root
+                    return {"what": "ids-on-element", "element": eid, "occurrence": occ,
+                            "detail": f"id {u} of silent instance {u2s[u]} on an element that is not one of its roots"}
+            if len(S) == 1 and len(U) == 1:
+                s, u = next(iter(S)), next(iter(U))
+                s2u[s], u2s[u] = u, s
+                progress = True
+            elif S:
+                rest.append((eid, occ, S, U))
+        pending = rest
     if o.get("leftovers"):
         return {"what": "placeholder-left-in-output", "found": o["leftovers"]}
     if o.get("child_attrs_left"):
